@@ -77,6 +77,8 @@ typedef struct Node {
 	int efail_errno;             /* errno the failing call reports (0 = leave errno untouched) */
 	int64_t eburst_at; int eburst_k; uint8_t eburst_val;
 	int efail_fired, eburst_fired;
+	/* allocator: the library's malloc calls made by tasks of this node */
+	uint64_t nmalloc; int64_t afail_at; int afail_rest; int afail_fired;
 	uint64_t efail_step;         /* sim step at which the failure was injected */
 	size_t efail_len;
 	/* draw log (for C18 oracles) */
